@@ -212,11 +212,12 @@ def three_roll(chk, rng, name, kw, g):
 
 
 def solved_passes(chk, rng):
-    """the same through real solves, with the SAME pass object solved again after its gap was changed; a width model prescribes the width"""
-    from pyroll.core import Roll, RollPass, Profile, CircularOvalGroove
-    from shapely import Polygon
-    for f in (0.8, 1.0, 1.1):
+    """the same through real solves, with the SAME pass object solved again after its gap was changed and after its groove was exchanged;
+    a width model - registered on the pass class itself or on one of its base classes - prescribes the width"""
+    from pyroll.core import Roll, RollPass, Profile, CircularOvalGroove, BaseRollPass, SymmetricRollPass
+    for f, owner in ((0.8, RollPass), (1.0, BaseRollPass), (1.1, SymmetricRollPass), (0.9, BaseRollPass)):
         g = CircularOvalGroove(depth=8e-3, r1=6e-3, r2=40e-3)
+        g_other = CircularOvalGroove(depth=6e-3, r1=6e-3, usable_width=g.usable_width)       # another groove of the same usable width
         rp = RollPass(roll=Roll(groove=g, nominal_radius=160e-3, rotational_frequency=1), gap=2e-3)
         target = g.usable_width * f
 
@@ -224,32 +225,38 @@ def solved_passes(chk, rng):
             if cycle:
                 return None
             return target
-        hf = RollPass.OutProfile.width(width_model)
+        hf = owner.OutProfile.width(width_model)
         fs = RollPass.Profile.flow_stress(lambda self: 50e6)
+        where = f"width model registered on {owner.__name__}.OutProfile"
         try:
             ip = Profile.round(diameter=30e-3, temperature=1200 + 273.15, material="C45", length=1, flow_stress=50e6)
-            for step, gap in enumerate((2e-3, 1e-3, 3e-3)):
+            history = []
+            for step, (gap, groove) in enumerate(((2e-3, g), (1e-3, g), (3e-3, g), (3e-3, g_other), (3e-3, g))):
                 rp.gap = gap
+                if rp.roll.groove is not groove:
+                    rp.roll.groove = groove
+                history.append({'gap': gap, 'groove_depth': groove.depth})
                 try:
                     rp.solve(ip)
                 except Exception as e:      # noqa
-                    chk.notes.append(f"solved pass with width model x{f}, gap {gap}: solve failed ({type(e).__name__})")
+                    chk.notes.append(f"solved pass with width model x{f}, step {step}: solve failed ({type(e).__name__})")
                     break
                 cs = rp.out_profile.cross_section
                 chk.cov['evaluations'] += 1
-                data = {'factor': f, 'gaps': [2e-3, 1e-3, 3e-3][:step + 1], 'history': 'the same RollPass object solved again after changing its gap'}
+                data = {'factor': f, 'history': history, 'note': 'the same RollPass object solved again after changing its gap / exchanging its groove', 'width_model_on': owner.__name__}
                 if abs((cs.bounds[2] - cs.bounds[0]) - target) > 1e-9 * target:
-                    return chk.fail('width', f"solved oval pass (solve {step + 1}, gap {gap}) with a width model prescribing {target!r}: the outgoing profile is "
+                    return chk.fail('width', f"solved oval pass (solve {step + 1}, gap {gap}; {where}) prescribing {target!r}: the outgoing profile is "
                                     f"{cs.bounds[2] - cs.bounds[0]!r} wide", data)
-                cpts = np.asarray(g.contour_points)
+                cpts = np.asarray(groove.contour_points)
                 B = np.asarray(cs.exterior.coords)
                 over = np.abs(B[:, 1]) - (gap / 2 + np.interp(B[:, 0], cpts[:, 0], cpts[:, 1]))
                 if np.max(over) > 1e-9:
-                    return chk.fail('not-confined', f"solved oval pass (solve {step + 1} of the same pass object, gap now {gap}): the outgoing profile reaches "
-                                    f"{np.max(over):.3g} into the rolls", data)
-                ref = Profile.from_groove(g, width=target, gap=gap).cross_section
+                    return chk.fail('not-confined', f"solved oval pass (solve {step + 1} of the same pass object, gap now {gap}, groove depth {groove.depth}): the outgoing "
+                                    f"profile reaches {np.max(over):.3g} into the rolls", data)
+                ref = Profile.from_groove(groove, width=target, gap=gap).cross_section
                 if sym_diff(cs, ref) > 1e-12:
-                    return chk.fail('differs-from-from-groove', f"solved oval pass (solve {step + 1}, gap {gap}, width x{f}): shape differs from Profile.from_groove", data)
+                    return chk.fail('differs-from-from-groove', f"solved oval pass (solve {step + 1}, gap {gap}, groove depth {groove.depth}, width x{f}): shape differs "
+                                    "from Profile.from_groove", data)
         finally:
             hf.hook.remove_function(hf)
             fs.hook.remove_function(fs)
